@@ -25,6 +25,9 @@ type C11Case struct {
 	Part   string `json:"part"`
 	Config int    `json:"config"`
 	Depth  int    `json:"depth"`
+	// Alias: a configuration as a library user may build it in Go - the override block of deb is also THE block
+	// (same pointer) of rpm and apk
+	Alias bool `json:"alias_override_blocks,omitempty"`
 }
 
 // c11Ops is the operation alphabet: validate, file-name(f), package(f), name-then-package(f).
@@ -140,6 +143,17 @@ func init() {
 					return
 				}
 			}
+			for i, d := range sharingConfigs(env) {
+				if ov, ok := d["overrides"].(map[string]any); ok && ov["deb"] != nil {
+					dd := 3
+					if env.Thorough() {
+						dd = 4
+					}
+					if !yield(C11Case{Part: "bfs", Config: i, Depth: dd, Alias: true}) {
+						return
+					}
+				}
+			}
 			for i := 0; i < len(sharingConfigs(env)); i++ {
 				if !yield(C11Case{Part: "orders", Config: i}) {
 					return
@@ -170,6 +184,10 @@ func checkC11(env *engine.Env, ci any) engine.Outcome {
 		cfg, err := parseYAML(text, nil)
 		if err != nil {
 			return nil
+		}
+		if c.Alias && cfg.Overrides["deb"] != nil {
+			cfg.Overrides["rpm"] = cfg.Overrides["deb"]
+			cfg.Overrides["apk"] = cfg.Overrides["deb"]
 		}
 		return &cfg
 	}
@@ -270,7 +288,7 @@ func checkC11(env *engine.Env, ci any) engine.Outcome {
 			hs = append(hs, strings.Join(h, ">"))
 		}
 		sort.Strings(hs)
-		out.Key = fmt.Sprintf("bfs:%d:%d:%s", c.Config, len(seen), strings.Join(hs, "|"))
+		out.Key = fmt.Sprintf("bfs:%d:%v:%d:%s", c.Config, c.Alias, len(seen), strings.Join(hs, "|"))
 	case "orders":
 		perm := []int{0, 1, 2, 3, 4}
 		n := 0
